@@ -52,8 +52,12 @@ import (
 //	    a write at all: the data was put into the store by an earlier engine with expiry off); mode busy:
 //	    unrelated inserts / updates / deletes on collections without TTL index; modes sess-commit /
 //	    sess-abort: an explicit session transaction holds the engine's write token across the cutoff (expiry
-//	    must resume afterwards; the committed one also inserts an expired document); mode close:
-//	    Engine.Close before or after the cutoff (must return, nothing may change afterwards);
+//	    must resume afterwards; the committed one also inserts an expired document; plain client writes queue up
+//	    behind it); mode contend: three more groups of documents expire (a pass really deletes every 100 ms)
+//	    while a holder keeps session transactions open for 100..800 ms and three plain writers queue up behind
+//	    it — the expiry goroutine as one writer among many, with the Property C04 monitors of
+//	    ttlclock_clients.go (also active in busy and sess-*); mode close: Engine.Close before or after the
+//	    cutoff (must return, nothing may change afterwards);
 //	(4) check against the wall-clock oracle. A document is classified per snapshot (t0 before, t1 after
 //	    reading Engine.Catalog()): X = min over the TTL indexes of its collection and the date leaves under
 //	    the index field of (date + expireAfterSeconds); must-be-present if X = never or t1 < X − 60 ms;
@@ -81,7 +85,7 @@ const (
 	tcNever         = int64(math.MaxInt64)
 )
 
-var tcModes = []string{"timed", "canary", "busy", "sess-commit", "sess-abort", "close", "reopen"}
+var tcModes = []string{"timed", "canary", "busy", "sess-commit", "sess-abort", "close", "reopen", "contend"}
 
 type tcParams struct {
 	Mode   string
@@ -133,6 +137,7 @@ type tcDoc struct {
 	explicit bool  // deleted by the scenario itself (expected: exactly one delete event)
 	dontCare bool  // no verdict (e.g. the TTL index was dropped too close to the cutoff)
 	soon     bool
+	client   bool // inserted by an acknowledged client write during the case (see ttlclock_clients.go)
 }
 
 type tcScn struct {
@@ -158,6 +163,9 @@ type tcScn struct {
 	errs        int // errors reported through Options.ExpireErrors
 	errText     string
 	seq         int
+
+	counters []tcCounterSpec // shared counters of the client writers
+	ops      []*tcOp         // client operations (ttlclock_clients.go)
 }
 
 func tcMs(t time.Time) int64 { return t.UnixMilli() }
@@ -239,7 +247,11 @@ func (t *tcStore) lastSlow() int64 {
 	return t.slowEnd
 }
 
-func (s *tcScn) viol(witness, what, detail string) {
+func (s *tcScn) viol(witness, what, detail string) { s.violP("C19", witness, what, detail) }
+
+// violP reports a violation of the given property (C19: the expiry itself; C04: acknowledged client writes
+// that compete with the expiry goroutine).
+func (s *tcScn) violP(prop, witness, what, detail string) {
 	s.mu.Lock()
 	defer s.mu.Unlock()
 	key := witness + "\x00" + detail
@@ -255,7 +267,7 @@ func (s *tcScn) viol(witness, what, detail string) {
 		return
 	}
 	s.tags = append(s.tags, "VIOLATION:"+witness)
-	s.viols = append(s.viols, run.Violation{Property: "C19", What: what, Witness: witness, Req: s.p.String(), Detail: clip(detail, 1500)})
+	s.viols = append(s.viols, run.Violation{Property: prop, What: what, Witness: witness, Req: s.p.String(), Detail: clip(detail, 1500)})
 }
 
 func (s *tcScn) tag(t string) {
@@ -389,6 +401,21 @@ func (s *tcScn) buildLayout(soonRound bool) map[*tcColl][]*tcDoc {
 
 	c := add(&tcColl{h: h("ta", "e1"), ttls: []tcTTL{{f, 1}}})
 	table(c, f, 1, nil)
+	if !soonRound {
+		// shared counters for the client writers (never expire): in TTL collections with a far-future date, a
+		// non-date and no TTL field, and in collections without TTL index
+		for i, cc := range []struct {
+			h lungo.Handle
+			v interface{}
+		}{{h("ta", "e1"), tcDT(s.base.Add(1000 * time.Hour))}, {h("tb", "plain"), "not a date"}, {h("ta", "e0"), nil}, {h("ta", "plain"), tcDT(s.base.Add(-time.Hour))}, {h("tc", "w"), tcDT(s.base.Add(-time.Hour))}} {
+			doc := bson.D{{Key: "_id", Value: "ctr#" + strconv.Itoa(i)}}
+			if cc.v != nil {
+				doc = append(doc, bson.E{Key: f, Value: cc.v})
+			}
+			doc = append(doc, bson.E{Key: "cnt", Value: int32(0)}, bson.E{Key: "last", Value: ""}, bson.E{Key: "u", Value: int32(9000 + i)})
+			s.counters = append(s.counters, tcCounterSpec{h: cc.h, doc: doc})
+		}
+	}
 	if soonRound {
 		// the very last document to expire, alone (more than one interval after all the others): a pass
 		// that removes exactly one document
@@ -482,6 +509,31 @@ func (s *tcScn) buildLayout(soonRound bool) map[*tcColl][]*tcDoc {
 	// third database: target of the unrelated writes
 	c = add(&tcColl{h: h("tc", "w"), plain: []string{"n"}})
 	table(c, f, 1, nil)
+
+	// the counters go into their collections with round A
+	for _, cs := range s.counters {
+		if soonRound {
+			break
+		}
+		for _, cl := range s.colls {
+			if cl.h == cs.h {
+				out[cl] = append(out[cl], s.track(cl, "counter", cs.doc, false))
+			}
+		}
+	}
+	// mode contend: more groups of documents that expire during the case (every 100 ms a pass really deletes)
+	if soonRound && s.p.Mode == "contend" {
+		for _, cl := range s.colls {
+			if len(cl.ttls) != 1 || cl.dropTTL || strings.Contains(cl.ttls[0].field, ".") || cl.unique != "" {
+				continue
+			}
+			cut := s.base.Add(-time.Duration(cl.ttls[0].secs) * time.Second)
+			for g, off := range []time.Duration{400, 300, 200} {
+				doc := bson.D{{Key: "_id", Value: s.newID("soon-g" + strconv.Itoa(g))}, {Key: f, Value: tcDT(cut.Add(soon - off*time.Millisecond))}}
+				out[cl] = append(out[cl], s.track(cl, "soon-g"+strconv.Itoa(g), doc, true))
+			}
+		}
+	}
 	return out
 }
 
@@ -655,6 +707,9 @@ func (s *tcScn) judge(sn tcSnap, phase string) (kept []*tcDoc, soonFresh, soonBo
 		}
 		here := sn.present[d.h][d.id]
 		where := fmt.Sprintf("%s: %s.%s %s kind=%s", phase, d.h[0], d.h[1], vj.Enc(d.doc), d.kind)
+		if !here && d.client {
+			continue // the audit decides by the oplog: removed by the expiry (C19) or lost (C04)
+		}
 		if !here {
 			fresh := d.x == tcNever || sn.t1 < d.x-int64(tcFreshMargin/time.Millisecond)
 			if !fresh {
@@ -749,6 +804,8 @@ func (s *tcScn) audit(sn tcSnap) (maxLatency int64) {
 		switch {
 		case here && len(evs) != 0:
 			s.viol("ttl-clock:delete-events", "a document that is still present has a delete event", where)
+		case !here && len(evs) == 0 && d.client:
+			s.violP("C04", "ttl-clock:ack-lost", "an acknowledged insert is neither in the final state nor was it deleted according to the change log", where)
 		case !here && len(evs) != 1:
 			s.viol("ttl-clock:delete-events", "a removed document does not have exactly one delete event", where)
 		}
@@ -1118,7 +1175,7 @@ func ttlclockCase(p tcParams) (c run.Case) {
 			s.viol("ttl-clock:setup-failed", "dropping the TTL index failed", err.Error())
 			return
 		}
-	} else {
+	} else if p.Mode != "contend" {
 		time.Sleep(3*s.ivl + 60*time.Millisecond)
 	}
 	s.tag("passes:" + passes)
@@ -1150,16 +1207,33 @@ func ttlclockCase(p tcParams) (c run.Case) {
 	case "timed", "canary", "reopen":
 		tcSleepUntil(deadline) // completely idle: not a single call into the engine
 	case "busy":
+		// one client writer with acknowledged plain writes on the TTL collections themselves, next to the
+		// unrelated writes
+		join := s.startClients(ctx, tcClientSpec{plain: 1, until: last + 120})
 		busyWrites = s.busyUntil(ctx, deadline)
+		join()
 		s.tag("busy-writes:" + tcBucket(busyWrites, 20, 60, 150))
 	case "sess-commit", "sess-abort":
 		holdEnd := last + 80 + int64(p.Bits>>40%200)
-		if err := s.session(ctx, p.Mode == "sess-commit", holdEnd); err != nil {
+		// plain writes queue up behind the session's token hold (they start 30 ms after it)
+		join := s.startClients(ctx, tcClientSpec{plain: 2, delay: 30 * time.Millisecond, until: holdEnd + 60})
+		err := s.session(ctx, p.Mode == "sess-commit", holdEnd)
+		join()
+		if err != nil {
 			s.viol("ttl-clock:setup-failed", "the session transaction failed", err.Error())
 			return
 		}
 		s.mu.Lock()
 		deadline = s.blockEnd + s.slack() + 30
+		s.mu.Unlock()
+		tcSleepUntil(deadline)
+	case "contend":
+		// the expiry goroutine as one writer among many: a holder keeps session transactions open for 100..800 ms
+		// across the expiry moments, three plain writers queue up behind it, every 100 ms documents expire
+		join := s.startClients(ctx, tcClientSpec{plain: 3, holder: true, until: last + 100})
+		join()
+		s.mu.Lock()
+		deadline = max64(s.blockEnd, last) + s.slack() + 30
 		s.mu.Unlock()
 		tcSleepUntil(deadline)
 	case "close":
@@ -1266,6 +1340,7 @@ func (s *tcScn) finalCheck(phase string) (removedSoon, total, gone int, latency 
 		}
 	}
 	latency = s.audit(sn)
+	s.auditClients(sn)
 	s.mu.Lock()
 	defer s.mu.Unlock()
 	for _, d := range s.docs {
@@ -1347,6 +1422,12 @@ func (s *tcScn) session(ctx context.Context, commit bool, holdEnd int64) error {
 		if _, err := s.coll(e1.h).InsertOne(sc, d2); err != nil {
 			return err
 		}
+		op := s.newOp(0, 0, "txn")
+		for i := range s.counters {
+			if err := s.inc(sc, op, i); err != nil {
+				return err
+			}
+		}
 		before := s.engine.Catalog()
 		tcSleepUntil(holdEnd)
 		if s.engine.Catalog() != before {
@@ -1356,6 +1437,7 @@ func (s *tcScn) session(ctx context.Context, commit bool, holdEnd int64) error {
 			if err := sc.CommitTransaction(sc); err != nil {
 				return err
 			}
+			s.ack(op)
 			now, seq := tcMs(time.Now()), s.store.count()
 			for _, d := range []*tcDoc{s.track(w, "sess", d1, false), s.track(e1, "sess", d2, false)} {
 				d.ready, d.readySeq = now, seq // the one in ta.e1 is already expired: the next pass must remove it
